@@ -385,6 +385,17 @@ impl LogRefEntry
 
             result.push_str(format!("{}", reference_id).as_str());
 
+            /*
+             * Nothing in a key-value argument tells the compiler the type of a bare integer
+             * literal, so it is taken to be an i32 and a value above i32::MAX is rejected
+             * ("literal out of range for `i32`"). IDs in the upper half of the range are
+             * written with their type.
+             */
+            if i32::try_from(reference_id).is_err()
+            {
+                result.push_str("u32");
+            }
+
             if let Some(suffix) = &self.insertion_suffix
             {
                 result.push_str(suffix);
